@@ -554,7 +554,27 @@ class Gen:
                 env = {k: np.array(self.vec(r.choice([1, 2, 3]))) for k in ks}
             depth = r.choice([2, 3, 3, 4, 4, 5])
             c = r.random()
-            if c < 0.45:
+            wm = r.random() < 0.6
+            if c < 0.15:
+                # metric stream: sums of (scaled) likelihood energies, possibly behind a multi-domain chain
+                def lh(env, d):
+                    n = r.choice([1, 2, 3])
+                    t = dict(t="gauss", data=self.vec(n), icov=self.vec(n, 0.25, 2), a=self.single(n, env, d))
+                    return dict(t="scale", c=r.choice([0.5, 2.0, 3.0]), a=t) if r.random() < 0.25 else t
+                if r.random() < 0.3 and depth >= 3:
+                    sizes = {k: r.choice([1, 2, 3]) for k in r.sample(["u", "v", "w"], r.choice([1, 2]))}
+                    g = self.multi(sizes, env, depth - 2)
+                    env2 = pyeval(g, env)
+                    t = lh(env2, depth - 2)
+                    if r.random() < 0.6:
+                        t = dict(t="add", a=t, b=lh(env2, depth - 2))
+                    t = dict(t="chain", f=t, g=g)
+                else:
+                    t = lh(env, depth - 1)
+                    for _ in range(r.choice([1, 1, 2])):
+                        t = dict(t="add", a=t, b=lh(env, depth - 2))
+                wm = r.random() < 0.85
+            elif c < 0.45:
                 t = self.scalar(env, depth)
                 if r.random() < 0.5:   # sums of energies: metric propagation through _OpSum / _LikelihoodSum
                     t = dict(t="add", a=t, b=self.scalar(env, depth - 1))
@@ -571,7 +591,7 @@ class Gen:
             if not all(_ok_all(v) for v in out.values()):
                 continue
             return dict(indom={k: len(v) for k, v in env.items()}, x={k: fl(v) for k, v in env.items()}, expr=t,
-                        wm=r.random() < 0.6, space=r.choice(["U", "U", "R"]))
+                        wm=wm, space=r.choice(["U", "U", "R"]))
         raise RuntimeError("generator exhausted")
 
 
@@ -655,3 +675,42 @@ def linearize_arith(b, t, x, wm, rng=None):
     return dict(val=to_flat(lin.val, dout), jac=dense(lin.jac, b, din, dout),
                 adj=dense(lin.jac.adjoint_times, b, dout, din), din=din,
                 metric=None if lin.metric is None else dense(lin.metric, b, din, din))
+
+
+# ---------------------------------------------------------------------------------------------- C04 helpers
+def walk_consts(op):
+    """ConstantOperator / ConstantEnergyOperator leaves of a real operator tree: list of (is_energy, {key: values})"""
+    from nifty.cl.operators.simplify_for_const import ConstantOperator, ConstantEnergyOperator
+    out = []
+    seen = set()
+
+    def rec(o):
+        if id(o) in seen:
+            return
+        seen.add(id(o))
+        if isinstance(o, (ConstantOperator, ConstantEnergyOperator)):
+            f = o._output
+            if hasattr(f, "keys"):
+                vals = {k: np.asarray(f[k].val.asnumpy() if hasattr(f[k].val, "asnumpy") else f[k].val).ravel().tolist()
+                        for k in f.keys()}
+            else:
+                vals = {"": np.asarray(f.val.asnumpy() if hasattr(f.val, "asnumpy") else f.val).ravel().tolist()}
+            out.append((isinstance(o, ConstantEnergyOperator), vals))
+            return
+        for attr in ("_ops",):
+            if hasattr(o, attr) and isinstance(getattr(o, attr), (tuple, list)):
+                for s in getattr(o, attr):
+                    rec(s)
+        for attr in ("_op1", "_op2", "_op"):
+            s = getattr(o, attr, None)
+            if s is not None and hasattr(s, "domain"):
+                rec(s)
+    rec(op)
+    return out
+
+
+def subsets(keys):
+    """every non-empty proper subset of the keys, deterministic order"""
+    keys = sorted(keys)
+    n = len(keys)
+    return [[keys[i] for i in range(n) if (m >> i) & 1] for m in range(1, (1 << n) - 1)]
